@@ -796,6 +796,10 @@ func c15Regs(ids []int) sx {
 		id := sgID(t)
 		for _, x := range ids {
 			if x == id {
+				if t == reflect.TypeFor[SGStructA]() || t == reflect.TypeFor[SGLongA]() {
+					// registered twice: the later registration replaces the earlier one
+					regs.list = append(regs.list, T("rs", I(int64(id)), schemaSx(sPrim("double"))))
+				}
 				regs.list = append(regs.list, T("rs", I(int64(id)), schemaSx(s)), T("rc", I(int64(id)), I(1), hs(acc)))
 			}
 		}
